@@ -115,7 +115,7 @@ def is_max_of(t, atoms_, kind='unsigned'):
     return True, None
 
 
-def count_form(t, dst, N, sizes):
+def count_form(t, dst, N, sizes, power=None):
     """does the element-count term have the required form over the given extent atoms?  -> (ok, why)"""
     t = ir.strip_casts(t)
     if dst == "strided":
@@ -126,18 +126,66 @@ def count_form(t, dst, N, sizes):
         if p == exp:
             return True, None
         return False, "element count is %s, expected the product of all %d extents" % (p.show({a: "s%d" % i for i, a in enumerate(sizes)}), N)
-    if t[0] != 'call' or not (t[1] or "").startswith(IPOW):
-        return False, "element count is %s, expected ipow(round_pow2(max extent), %d)" % (ir.show(t)[:100], N)
-    base, exp_ = t[3], t[4]
-    if exp_ != ('ci', N, 64):
-        return False, "exponent of the element count is %s, expected the dimensionality %d" % (ir.show(exp_), N)
-    if base[0] != 'call' or not (base[1] or "").startswith(RP2):
-        return False, "base of the element count is %s, expected round_pow2(max extent)" % ir.show(base)[:100]
-    ok, r = is_max_of(base[3], sizes)
-    if ok is None:
-        return False, "argument of round_pow2 is not a max tree over the extents: %s" % ir.show(base[3])[:120]
-    if not ok:
-        return False, "round_pow2 is applied to %s, which is not the largest extent for ordering %s" % (ir.show(base[3], {a: "s%d" % i for i, a in enumerate(sizes)})[:120], r)
+    names = {a: "s%d" % i for i, a in enumerate(sizes)}
+    if t[0] == 'call' and (t[1] or "").startswith(IPOW) and t[4] == ('ci', N, 64) and t[3][0] == 'call' and (t[3][1] or "").startswith(RP2):
+        base = t[3]
+        ok, r = is_max_of(base[3], sizes)
+        if ok is None:
+            return False, "argument of round_pow2 is not a max tree over the extents: %s" % ir.show(base[3])[:120]
+        if not ok:
+            return False, "round_pow2 is applied to %s, which is not the largest extent for ordering %s" % (ir.show(base[3], names)[:120], r)
+        return True, None
+    # another spelling (a cached side, a bit trick instead of round_pow2, side*side instead of ipow): the count is a
+    # straight-line integer expression over the extents; it is evaluated at the extent tuples where such an expression can
+    # change its value and must be (least power of two >= largest extent)^N there.  utility::round_pow2 / ipow calls inside
+    # it are given their specified meaning (C18 decides that they have it).
+    from .hilbert_curve import ev_int, rp2
+    from ..common import AnalysisBroken as AB
+
+    def ev(x, env):
+        if x[0] == 'call' and (x[1] or "").startswith(RP2):
+            return rp2(ev(x[3], env))
+        if x[0] == 'call' and (x[1] or "").startswith(IPOW):
+            return pow(ev(x[3], env), ev(x[4], env), 1 << 64)
+        if x in env or x[0] in ('ci',):
+            return ev_int(x, env)
+        if x[0] in ('op', 'cmp'):
+            sub = {y: ('ci', ev(y, env) if not isinstance(ev(y, env), bool) else int(ev(y, env)), 64) for y in (x[3], x[4]) if x[0] == 'op'} if x[0] == 'op' else {}
+            if x[0] == 'op':
+                return ev_int((x[0], x[1], x[2], sub[x[3]], sub[x[4]]), env)
+            a_, b_ = ev(x[2], env), ev(x[3], env)
+            return ev_int(('cmp', x[1], ('ci', a_, 64), ('ci', b_, 64)), env)
+        if x[0] == 'sel':
+            return ev(x[2], env) if ev(x[1], env) else ev(x[3], env)
+        if x[0] == 'cast':
+            return ev_int((x[0], x[1], x[2], ('ci', ev(x[3], env), 64)), env)
+        if x[0] == 'fn':
+            return ev_int(x[:3] + tuple(('ci', ev(y, env), 64) for y in x[3:]), env)
+        if x[0] in ('not', 'and', 'or'):
+            vs = [ev(y, env) for y in x[1:]]
+            return (not vs[0]) if x[0] == 'not' else (vs[0] and vs[1]) if x[0] == 'and' else (vs[0] or vs[1])
+        if x[0] == 'extractvalue' and x[1][0] in ('fn', 'call') and (x[1][1] or "").startswith("llvm.umul.with.overflow"):
+            prod = ev(x[1][3], env) * ev(x[1][4], env)
+            return (prod & ((1 << 64) - 1)) if x[2] == 0 else (prod >> 64 != 0)
+        raise AB("element count uses an operation this evaluation does not know: %s" % ir.show(x)[:80])
+    import itertools
+    reps = []
+    for k in range(0, 20):
+        for m_ in (1 << k, (1 << k) + 1, (1 << (k + 1)) - 1):
+            others = sorted({1, m_, max(1, m_ // 2), max(1, m_ - 1)})
+            for pos in range(N):
+                for rest in itertools.product(others, repeat=N - 1) if N <= 3 else [tuple([others[0]] * (N - 1)), tuple([m_] * (N - 1))]:
+                    tup = list(rest[:pos]) + [m_] + list(rest[pos:])
+                    reps.append(tuple(tup))
+    try:
+        for tup in sorted(set(reps)):
+            env = dict(zip(sizes, tup))
+            v = ev(t, env)
+            want = pow(rp2(max(tup)), N if power is None else power, 1 << 64)
+            if v != want:
+                return False, "value is %d for extents %s, expected %d = (largest extent rounded up to a power of two)^%d; the expression is %s" % (v, tup, want, N if power is None else power, ir.show(t, names)[:100])
+    except AB as e:
+        return None, "element count %s is not of the form ipow(round_pow2(max extent), %d) and could not be evaluated (%s)" % (ir.show(t, names)[:80], N, e)
     return True, None
 
 
